@@ -113,7 +113,15 @@ def render(p, names=GLYPHS):
 # ----------------------------------------------------------------------------- TLC stages
 
 
-def generate(ctx, cfg, tag, simulate=None, seed=None, timeout=300):
+def generate(ctx, cfg, tag, simulate=None, seed=None, timeout=900, stride=1, offset=0):
+    """Run one generator config; stride/offset thin the enumeration of generators A and B (quick tier)."""
+    if stride != 1:
+        text = open(os.path.join(common.SPEC, cfg)).read()
+        if "Stride = 1 Offset = 0" not in text:
+            raise common.ToolError("%s has no Stride/Offset constants" % cfg)
+        cfg = ctx.path("%s_stride%d_%d.cfg" % (tag, stride, offset))
+        with open(cfg, "w") as f:
+            f.write(text.replace("Stride = 1 Offset = 0", "Stride = %d Offset = %d" % (stride, offset)))
     r = common.run_tlc(ctx, "FeaSem", cfg, workers=1 if simulate else 2, timeout=timeout, simulate=simulate,
                        depth=20 if simulate else None, seed=seed, tag=tag, xmx="2g")
     if r.error or r.timed_out or r.violated:
@@ -732,8 +740,10 @@ def main(ctx):
     quick = ctx.quick
     rng = random.Random(ctx.seed)
     with concurrent.futures.ThreadPoolExecutor(3) as ex:
-        fa = ex.submit(generate, ctx, "FeaSemGenA.cfg", "genA")
-        fb = ex.submit(generate, ctx, "FeaSemGenB.cfg", "genB")
+        # quick: every 6th A program and every 12th B candidate, the residue class chosen by the seed
+        sa, sb = (6, 12) if quick else (1, 1)
+        fa = ex.submit(generate, ctx, "FeaSemGenA.cfg", "genA", stride=sa, offset=ctx.seed % sa)
+        fb = ex.submit(generate, ctx, "FeaSemGenB.cfg", "genB", stride=sb, offset=(ctx.seed * 5) % sb)
         fc = ex.submit(generate, ctx, "FeaSemSim.cfg", "genC", 600 if quick else 12000, ctx.seed)
         A, B, C = fa.result(), fb.result(), fc.result()
     seen = set()
@@ -748,8 +758,8 @@ def main(ctx):
         return out
 
     A, B, C = uniq(A), uniq(B), uniq(C)
-    common.log("generated: A=%d single-lookup programs, B=%d two-lookup programs, C=%d simulated programs" %
-               (len(A), len(B), len(C)))
+    common.log("generated%s: A=%d single-lookup programs, B=%d two-lookup programs, C=%d simulated programs" %
+               (" (thinned 1/%d, 1/%d)" % (sa, sb) if quick else "", len(A), len(B), len(C)))
     nA, nB, nC = (220, 220, 160) if quick else (len(A), len(B), 5000)
     pick = lambda lst, n: lst if n >= len(lst) else rng.sample(lst, n)
     # B: two lookups of the same rule type are where only flags/structure separate the lookups; in the quick
@@ -808,7 +818,8 @@ def main(ctx):
         stats[origin]["selected"] = len(lst)
         common.log("generator %s: %s" % (origin, json.dumps(stats[origin])))
     ev.extra["generated"] = stats
-    ev.extra["universe_sizes"] = {"A_candidates": len(A), "B_candidates": len(B), "C_distinct_simulated": len(C)}
+    ev.extra["generated_candidates"] = {"A": len(A), "B": len(B), "C_distinct_simulated": len(C),
+                                        "A_B_thinning": [sa, sb]}
     ev.exhaustive = (not quick) and stats["A"]["candidates"] == len(A) and stats["B"]["candidates"] == len(B)
     if todo:
         ev.extra["not_reached_within_time_budget"] = len(todo)
